@@ -67,7 +67,7 @@ def generate(chk, quick):
                            tag="ClientAuxGenTour", heap="6g")
     allp, st2 = vf.tlc_gen("ClientAuxGen.tla", "ClientAuxGenAll3.cfg" if quick else "ClientAuxGenAll4.cfg",
                            tag="ClientAuxGenAll", heap="6g")
-    sim, st3 = vf.tlc_simulate("ClientAuxGen.tla", "ClientAuxGenSim.cfg", num=150 if quick else 1000, depth=25 if quick else 40,
+    sim, st3 = vf.tlc_simulate("ClientAuxGen.tla", "ClientAuxGenSim.cfg", num=150 if quick else 500, depth=25 if quick else 40,
                                seed=chk.seed, workers=WORKERS, tag="ClientAuxGenSim")
     behs = vf.maximal_behaviours(tour + allp + sim)
     return behs, {"tour": st1, "all_paths": st2, "simulate": st3}
